@@ -1,8 +1,283 @@
-//! C17 harness entry (not implemented yet).
+//! C17: dependency orderers.
+//!
+//! Case: {"k": kind, "g": [[deps of node 0], [deps of node 1], ...], "items": [listing order], "aref": m}
+//! Nodes are 0..n-1 (n = g.len()); a dependency id >= n is a reference to something that does not exist
+//! (only meaningful for "gds": an SREF to a name no struct carries).
+//!   "gen"      layout21utils::DepOrder::order(items) with `impl DepOrder for G { type Item = usize }`,
+//!              process = push every dependency (graph in a thread_local, `process` is a static fn)
+//!   "raw"      layout21raw::DepOrder::order(&lib): cells = `items` in that order; nodes not in `items`
+//!              are cells that are instantiated but not listed in lib.cells
+//!   "rawproto" the same library through layout21raw::Library::to_proto(): order of plib.cells
+//!   "tetris"   layout21tetris::library::Library::dep_order()
+//!   "tproto"   layout21tetris::conv::proto::ProtoExporter::export(&lib): order of plib.cells (CellOrder)
+//!   "place"    layout21tetris::placer::Placer::place on one parent cell whose instances are placed relative to
+//!              each other (out-degree <= 1): order of the parent's instances afterwards (PlaceOrder)
+//!   "gds"      layout21raw::Library::from_gds(&gdslib, None): order of lib.cells (GdsDepOrder);
+//!              structs listed in `items` order; every m-th reference is an AREF (1x1) when m > 0
+//! Result: {"rc":0,"out":[ids]} | {"rc":1,"err":msg}   (a panic becomes {"panic":..} in main_loop,
+//! a stack overflow kills the process and is seen by the caller as {"crash":..}).
 use l21h::{json, Value};
+use std::cell::RefCell;
 
-fn run(_case: &Value) -> Value {
-    json!({"harness_error": "not implemented"})
+use layout21raw as raw;
+use layout21tetris as tetris;
+use layout21utils::{DepOrder, DepOrderer, Ptr};
+
+thread_local! {
+    static GRAPH: RefCell<Vec<Vec<usize>>> = RefCell::new(Vec::new());
+}
+
+struct G;
+impl DepOrder for G {
+    type Item = usize;
+    type Error = String;
+    fn process(item: &usize, orderer: &mut DepOrderer<Self>) -> Result<(), String> {
+        // copy the dependency list out so that no RefCell borrow is held across the recursion
+        let deps: Vec<usize> = GRAPH.with(|g| g.borrow().get(*item).cloned().unwrap_or_default());
+        for d in deps.iter() {
+            orderer.push(d)?;
+        }
+        Ok(())
+    }
+    fn fail() -> Result<(), String> {
+        Err("cycle".to_string())
+    }
+}
+
+fn parse_graph(case: &Value) -> (Vec<Vec<usize>>, Vec<usize>) {
+    let g: Vec<Vec<usize>> = case["g"]
+        .as_array()
+        .expect("g: array")
+        .iter()
+        .map(|row| row.as_array().expect("g[i]: array").iter().map(|v| v.as_u64().expect("dep: u64") as usize).collect())
+        .collect();
+    let items: Vec<usize> = case["items"].as_array().expect("items: array").iter().map(|v| v.as_u64().expect("item: u64") as usize).collect();
+    (g, items)
+}
+
+fn id_of(name: &str) -> i64 {
+    // names are "c<id>"
+    name[1..].parse::<i64>().unwrap_or(-1)
+}
+
+/// The hand-rolled orderers return a bare Vec today; a repaired version returns a Result. Accept both, so
+/// that the harness builds before and after such a repair.
+trait OrderResult<P> {
+    fn into_res(self) -> Result<Vec<P>, String>;
+}
+impl<P> OrderResult<P> for Vec<P> {
+    fn into_res(self) -> Result<Vec<P>, String> {
+        Ok(self)
+    }
+}
+impl<P, E: std::fmt::Debug> OrderResult<P> for Result<Vec<P>, E> {
+    fn into_res(self) -> Result<Vec<P>, String> {
+        self.map_err(|e| format!("{:?}", e))
+    }
+}
+
+fn ok(ids: Vec<i64>) -> Value {
+    json!({"rc": 0, "out": ids})
+}
+fn err(msg: String) -> Value {
+    json!({"rc": 1, "err": msg})
+}
+
+fn run_gen(g: Vec<Vec<usize>>, items: Vec<usize>) -> Value {
+    GRAPH.with(|gr| *gr.borrow_mut() = g);
+    match G::order(&items) {
+        Ok(v) => ok(v.into_iter().map(|x| x as i64).collect()),
+        Err(e) => err(e),
+    }
+}
+
+/// raw library: one cell per node, each with a Layout whose instances point at the dependencies' cells
+fn build_raw(g: &[Vec<usize>], items: &[usize]) -> raw::Library {
+    let ptrs: Vec<Ptr<raw::Cell>> = (0..g.len()).map(|i| Ptr::new(raw::Cell::new(format!("c{}", i)))).collect();
+    for (i, deps) in g.iter().enumerate() {
+        let mut layout = raw::Layout::default();
+        layout.name = format!("c{}", i);
+        for (k, d) in deps.iter().enumerate() {
+            layout.insts.push(raw::Instance {
+                inst_name: format!("i{}", k),
+                cell: ptrs[*d].clone(),
+                loc: raw::Point::new(10 * k as isize, 0),
+                reflect_vert: false,
+                angle: None,
+            });
+        }
+        ptrs[i].write().unwrap().layout = Some(layout);
+    }
+    let mut lib = raw::Library::new("lib", raw::Units::Nano);
+    for i in items {
+        lib.cells.push(ptrs[*i].clone());
+    }
+    lib
+}
+
+fn run_raw(g: Vec<Vec<usize>>, items: Vec<usize>) -> Value {
+    let lib = build_raw(&g, &items);
+    match raw::DepOrder::order(&lib).into_res() {
+        Ok(order) => ok(order.iter().map(|p| id_of(&p.read().unwrap().name)).collect()),
+        Err(e) => err(e),
+    }
+}
+
+fn run_rawproto(g: Vec<Vec<usize>>, items: Vec<usize>) -> Value {
+    let lib = build_raw(&g, &items);
+    match lib.to_proto() {
+        Ok(plib) => ok(plib.cells.iter().map(|c| id_of(&c.name)).collect()),
+        Err(e) => err(format!("{:?}", e)),
+    }
+}
+
+fn build_tetris(g: &[Vec<usize>], items: &[usize]) -> tetris::library::Library {
+    use tetris::cell::Cell;
+    use tetris::instance::Instance;
+    use tetris::layout::Layout;
+    use tetris::outline::Outline;
+    let ptrs: Vec<Ptr<Cell>> = (0..g.len()).map(|i| Ptr::new(Cell::new(format!("c{}", i)))).collect();
+    for (i, deps) in g.iter().enumerate() {
+        let mut layout = Layout::new(format!("c{}", i), 0, Outline::rect(100, 10).unwrap());
+        for (k, d) in deps.iter().enumerate() {
+            layout.instances.add(Instance {
+                inst_name: format!("i{}", k),
+                cell: ptrs[*d].clone(),
+                loc: (k as isize, 0).into(),
+                reflect_horiz: false,
+                reflect_vert: false,
+            });
+        }
+        ptrs[i].write().unwrap().layout = Some(layout);
+    }
+    let mut lib = tetris::library::Library::new("lib");
+    for i in items {
+        lib.cells.push(ptrs[*i].clone());
+    }
+    lib
+}
+
+fn run_tetris(g: Vec<Vec<usize>>, items: Vec<usize>) -> Value {
+    let lib = build_tetris(&g, &items);
+    match lib.dep_order().into_res() {
+        Ok(order) => ok(order.iter().map(|p| id_of(&p.read().unwrap().name)).collect()),
+        Err(e) => err(e),
+    }
+}
+
+fn run_tproto(g: Vec<Vec<usize>>, items: Vec<usize>) -> Value {
+    let lib = build_tetris(&g, &items);
+    match tetris::conv::proto::ProtoExporter::export(&lib) {
+        Ok(plib) => ok(plib.cells.iter().map(|c| id_of(&c.name)).collect()),
+        Err(e) => err(format!("{:?}", e)),
+    }
+}
+
+fn run_gds(g: Vec<Vec<usize>>, items: Vec<usize>, arefmod: usize) -> Value {
+    use gds21::{GdsArrayRef, GdsLibrary, GdsPoint, GdsStruct, GdsStructRef};
+    let mut lib = GdsLibrary::new("lib");
+    let mut k = 0usize;
+    for i in items.iter() {
+        let mut s = GdsStruct::new(format!("c{}", i));
+        for d in g[*i].iter() {
+            k += 1;
+            if arefmod > 0 && k % arefmod == 0 {
+                s.elems.push(
+                    GdsArrayRef {
+                        name: format!("c{}", d),
+                        xy: [GdsPoint::new(0, 0), GdsPoint::new(10, 0), GdsPoint::new(0, 10)],
+                        cols: 1,
+                        rows: 1,
+                        ..Default::default()
+                    }
+                    .into(),
+                );
+            } else {
+                s.elems.push(GdsStructRef { name: format!("c{}", d), xy: GdsPoint::new(k as i32, 0), ..Default::default() }.into());
+            }
+        }
+        lib.structs.push(s);
+    }
+    match raw::Library::from_gds(&lib, None) {
+        Ok(rlib) => ok(rlib.cells.iter().map(|p| id_of(&p.read().unwrap().name)).collect()),
+        Err(e) => err(format!("{:?}", e)),
+    }
+}
+
+/// PlaceOrder through Placer::place: one parent cell whose instances (listed in `items` order, which must
+/// contain every node once) are placed absolutely (g[i] == []) or relative to instance g[i][0].
+/// The order of the parent's `instances` after placement is the order PlaceOrder produced.
+fn run_place(g: Vec<Vec<usize>>, items: Vec<usize>) -> Value {
+    use tetris::instance::Instance;
+    use tetris::layout::Layout;
+    use tetris::outline::Outline;
+    use tetris::placement::{Align, Place, Placeable, RelativePlace, Separation, Side};
+    use tetris::stack::{PrimitiveLayer, Stack};
+    let mut rawlayers = raw::Layers::default();
+    let boundary_layer = Some(rawlayers.add(raw::Layer::from_pairs(0, &[(0, raw::LayerPurpose::Outline)]).unwrap()));
+    let stack = Stack {
+        units: raw::Units::default(),
+        boundary_layer,
+        prim: PrimitiveLayer::new((100, 100).into()),
+        metals: Vec::new(),
+        vias: Vec::new(),
+        rawlayers: Some(Ptr::new(rawlayers)),
+    }
+    .validate()
+    .unwrap();
+    let mut lib = tetris::library::Library::new("lib");
+    let unit = lib.cells.add(Layout::new("unit", 0, Outline::rect(3, 7).unwrap()));
+    let insts: Vec<Ptr<Instance>> = (0..g.len())
+        .map(|i| {
+            Ptr::new(Instance {
+                inst_name: format!("c{}", i),
+                cell: unit.clone(),
+                loc: (5 * i as isize, 0).into(),
+                reflect_horiz: false,
+                reflect_vert: false,
+            })
+        })
+        .collect();
+    for (i, deps) in g.iter().enumerate() {
+        if let Some(d) = deps.first() {
+            insts[i].write().unwrap().loc = Place::Rel(RelativePlace {
+                to: Placeable::Instance(insts[*d].clone()),
+                side: Side::Right,
+                align: Align::Side(Side::Bottom),
+                sep: Separation::default(),
+            });
+        }
+    }
+    let mut parent = Layout::new("parent", 0, Outline::rect(10000, 100).unwrap());
+    for i in items.iter() {
+        parent.instances.push(insts[*i].clone());
+    }
+    let parent = lib.cells.add(parent);
+    match tetris::placer::Placer::place(lib, stack) {
+        Ok(_) => {
+            let cell = parent.read().unwrap();
+            let layout = cell.layout.as_ref().unwrap();
+            // every placement must be absolute now
+            let all_abs = layout.instances.iter().all(|p| matches!(p.read().unwrap().loc, Place::Abs(_)));
+            json!({"rc": 0, "out": layout.instances.iter().map(|p| id_of(&p.read().unwrap().inst_name)).collect::<Vec<i64>>(), "all_abs": all_abs})
+        }
+        Err(e) => err(format!("{:?}", e)),
+    }
+}
+
+fn run(case: &Value) -> Value {
+    let k = case["k"].as_str().unwrap_or("");
+    let (g, items) = parse_graph(case);
+    match k {
+        "gen" => run_gen(g, items),
+        "raw" => run_raw(g, items),
+        "rawproto" => run_rawproto(g, items),
+        "tetris" => run_tetris(g, items),
+        "tproto" => run_tproto(g, items),
+        "place" => run_place(g, items),
+        "gds" => run_gds(g, items, case["aref"].as_u64().unwrap_or(0) as usize),
+        _ => json!({"harness_error": "bad kind"}),
+    }
 }
 
 fn main() {
